@@ -48,7 +48,13 @@ def gen_sequences(rng, cfg, count):
                 if all(len(signed[x]) >= SHAPE[cfg[x][0]][1] for x in range(len(cfg))):
                     steps.append({'op': 'roundtrip', 'j': 1, 'keys': [], 'f': '', 'pos': 0})
             elif r < 0.78:
-                steps.append({'op': 'tamper', 'j': j + 1, 'keys': [], 'f': rng.choice(FIELDS), 'pos': 0})
+                f = rng.choice(FIELDS)
+                fully = all(len(signed[x]) >= SHAPE[cfg[x][0]][1] for x in range(len(cfg)))
+                if fully and f in ('version', 'locktime', 'sequence', 'out.value') and rng.random() < 0.5:
+                    # the same field changed in the SERIALIZED transaction, which is then parsed again
+                    steps.append({'op': 'tamper', 'j': j + 1, 'keys': [], 'f': f, 'pos': rng.choice([1, 2, 3])})
+                else:
+                    steps.append({'op': 'tamper', 'j': j + 1, 'keys': [], 'f': f, 'pos': 0})
                 disturbed = True
             elif r < 0.86:
                 steps.append({'op': rng.choice(['corrupt', 'drop']), 'j': j + 1, 'keys': [], 'f': '', 'pos': rng.randrange(1, n + 1)})
@@ -61,6 +67,25 @@ def gen_sequences(rng, cfg, count):
                 steps.append({'op': rng.choice(['foreign', 'duplicate']), 'j': j + 1, 'keys': [], 'f': '', 'pos': 0})
                 disturbed = True
         seqs.append(steps)
+    return seqs
+
+
+def systematic_sequences(cfg):
+    """Fully sign every input (m keys each), then change one committed field - on the object and in the serialized form, with
+    each kind of new value - and verify; also a round trip before the change."""
+    sign_all = [{'op': 'sign', 'j': j + 1, 'keys': list(range(1, SHAPE[cfg[j][0]][1] + 1)), 'f': '', 'pos': 0} for j in range(len(cfg))]
+    seqs = []
+    for f in FIELDS:
+        for pos in (0, 1, 2, 3):
+            if pos and f not in ('version', 'locktime', 'sequence', 'out.value'):
+                continue
+            for j in range(len(cfg)):
+                if j and f not in ('sequence', 'outpoint', 'amount'):
+                    continue
+                t = {'op': 'tamper', 'j': j + 1, 'keys': [], 'f': f, 'pos': pos}
+                seqs.append(sign_all + [t])
+                if pos == 0:
+                    seqs.append(sign_all + [{'op': 'roundtrip', 'j': 1, 'keys': [], 'f': '', 'pos': 0}, t])
     return seqs
 
 
@@ -103,6 +128,29 @@ def run_sequences(job):
                     t.sign(keys, index_n=j, fail_on_unknown_key=False)
                 elif a['op'] == 'roundtrip':
                     t = Transaction.parse(t.raw(), strict=True, network=network)
+                    for jj, v in enumerate(values):
+                        t.inputs[jj].value = v
+                elif a['op'] == 'tamper' and a['pos']:
+                    # change the field in the raw bytes (pos selects the new value), then parse
+                    f = a['f']
+                    raw = bytearray(t.raw())
+                    if f == 'version':
+                        old = int.from_bytes(raw[0:4], 'little')
+                        newv = [0, old + 1, 0xffffffff][a['pos'] - 1]
+                        raw[0:4] = (newv if newv != old else old + 2).to_bytes(4, 'little')
+                    elif f == 'locktime':
+                        old = int.from_bytes(raw[-4:], 'little')
+                        newv = [0, old + 1, 0xffffffff][a['pos'] - 1]
+                        raw[-4:] = (newv if newv != old else old + 2).to_bytes(4, 'little')
+                    elif f == 'sequence':
+                        seqb = (0xfffffffd).to_bytes(4, 'little')          # every input was built with this sequence
+                        at = bytes(raw).find(seqb)
+                        raw[at:at + 4] = [(0).to_bytes(4, 'little'), (0xfffffffe).to_bytes(4, 'little'), (0xffffffff).to_bytes(4, 'little')][a['pos'] - 1]
+                    else:
+                        vb = int(t.outputs[0].value).to_bytes(8, 'little')
+                        at = bytes(raw).find(vb)
+                        raw[at:at + 8] = (int(t.outputs[0].value) + a['pos']).to_bytes(8, 'little')
+                    t = Transaction.parse(bytes(raw), strict=True, network=network)
                     for jj, v in enumerate(values):
                         t.inputs[jj].value = v
                 elif a['op'] == 'tamper':
@@ -185,6 +233,7 @@ def run(replay=None):
         for ci, cfg in enumerate(CFGS):
             for part in range(4):
                 jobs.append((common.seed() + ci * 10 + part, cfg, gen_sequences(rng, cfg, per), nets[(ci + part) % 3]))
+            jobs.append((common.seed() + ci * 10 + 9, cfg, systematic_sequences(cfg), nets[ci % 3]))
     results = common.pmap(run_sequences, jobs)
     flat = [(job, rec) for job, res in zip(jobs, results) for rec in res]
     verdicts = common.tlc_eval('SigningEval', [{'cfg': r['cfg'], 'steps': [{'a': s['a'], 'lib': s['lib']} for s in r['steps']]}
